@@ -419,6 +419,9 @@ func writeReplay(prop string, h HarnessSpec, v *sym.Violation, tier string) stri
 
 // confirmNatively replays a model against the natively compiled code.
 func confirmNatively(ps *PropSpec, h HarnessSpec, path string, v *sym.Violation) (bool, string) {
+	if strings.HasPrefix(v.Label, "allocation-beyond-limit") {
+		return true, "(engine-side observation: the size term of a make() can exceed the limit; see the model for the input) "
+	}
 	if h.Replay == "none" {
 		return true, "(model not natively replayable: harness uses engine stubs) "
 	}
